@@ -206,12 +206,15 @@ func init() {
 		ID:    "C01",
 		Level: "exploration",
 		Rule: "PRNG operation scripts over the public API (paragraph/table/image/header/footer/note/list/TOC/properties/page/math/style calls, hostile corpus strings, reopen and template-render steps), " +
-			"each saved through ToBytes and Save up to 3 times, plus hostile Markdown through ConvertFile; every produced package is read by the independent OPC monitor (zip-readable, xml-wellformed, ns-unbound, content-types, main-part). " +
+			"each saved through ToBytes and Save up to 3 times, plus hostile Markdown through ConvertFile, plus harness-written foreign packages (own content-type defaults, arbitrary ids/prefixes/parts) that are opened and extended; every produced package is read by the independent OPC monitor (zip-readable, xml-wellformed, ns-unbound, content-types, main-part). " +
 			"A case is non-trivial if it executed >=3 distinct call kinds and at least one package was parsed; distinct = distinct call sequence.",
 		Cases: func(t string) int { return tierN(t, 1600, 40000) },
 		Run: func(c *core.Ctx) *core.Result {
 			if c.Case%8 == 7 {
 				return markdownCase(c, (*opc.Package).CheckC01)
+			}
+			if c.Case%8 == 5 { // packages of other producers (their own content-type defaults, ids, parts), opened and extended
+				return foreignExtendCase(c, (*opc.Package).CheckC01)
 			}
 			if c.Case%8 == 6 { // values landing in raw header/footer XML
 				return scriptCase(c, true, 30, map[string]int{"Header/Footer": 30, "RenderAsTemplate": 14, "Reopen": 4}, (*opc.Package).CheckC01, 2)
@@ -228,10 +231,13 @@ func init() {
 	core.Register(&core.Check{
 		ID:    "C02",
 		Level: "exploration",
-		Rule: "operation scripts biased to relationship-creating calls (body/cell/template images, every header/footer kind repeatedly, notes, lists, footnote config, properties) interleaved with save/open cycles, plus foreign packages with arbitrary pre-existing relationship ids that are opened and then extended; " +
+		Rule: "operation scripts biased to relationship-creating calls (body/cell/template images, every header/footer kind repeatedly, notes, lists, footnote config, properties) interleaved with save/open cycles, plus foreign packages with arbitrary pre-existing relationship ids (also without / with a strict-namespace styles relationship) that are opened and then extended, plus groups of documents rendered from one template document that are extended alternately and saved at the end; " +
 			"every saved package goes through the relationship monitor (unique ids per .rels, internal targets exist, owner part, r:id/r:embed references resolve to the matching kind). Non-trivial: >=3 call kinds and >=1 relationship checked; distinct = distinct call sequence.",
 		Cases: func(t string) int { return tierN(t, 2400, 60000) },
 		Run: func(c *core.Ctx) *core.Result {
+			if c.Case%6 == 5 {
+				return renderSiblingsCase(c, (*opc.Package).CheckC02, map[string]int{"AddImageFromData": 30, "Header/Footer": 10, "AddParagraph": 3, "Table.content": 8, "AddTable": 3, "Reopen": 0, "RenderAsTemplate": 0, "AddImageFromFile": 3, "Properties": 3})
+			}
 			if c.Case%3 == 2 {
 				return foreignExtendCase(c, (*opc.Package).CheckC02)
 			}
